@@ -1,6 +1,8 @@
 """C17 — RetryingClient retries exactly as configured.
 Real `RetryingClient` around a scripted inner client, `retrying.sleep` patched; compared with the Lean
-model `Retrying.retry`/`ctorOk` and judged by a model-independent monitor on the call/sleep logs."""
+model `Retrying.retry`/`ctorOk` and judged by a model-independent monitor on the call/sleep logs.
+Calls on a reused client are compared call by call with `retry` and as a whole history with `Retrying.runCalls` on the object built by
+`Retrying.construct` (driver `retrycalls`); disagreements there name `C17_calls_independent` / `C17_empty_filter_is_no_filter`."""
 import itertools
 
 from common import Ctx, import_repo
@@ -136,6 +138,17 @@ def model_line(attempts, rf, dnr, seq, in_dir=True):
     return f"retry attempts={attempts} rf={nl(rf or [])} dnr={nl(dnr or [])} dir={int(in_dir)} sub={SUB} script={scr}"
 
 
+def model_history_line(attempts, rf, dnr, spelling, empty, seqs):
+    """one object built by `Retrying.construct` (an empty collection is passed as such, not as None), the whole history run by `Retrying.runCalls`;
+    the scripted method `op` is method 1 and is listed by dir()"""
+    def nl(x):
+        return ",".join(map(str, x)) if x else "-"
+    rfk = spelling if (rf is not None or empty == "empty") else "none"
+    dk = spelling if (dnr is not None or empty == "empty") else "none"
+    calls = ";".join("1@" + (",".join(f"o:{n}" if o == "ok" else f"e:{o}:{n}" for n, o in enumerate(seq)) or "-") for seq in seqs)
+    return (f"retrycalls attempts={attempts} rfk={rfk} rf={nl(rf or [])} dnrk={dk} dnr={nl(dnr or [])} exc=0,1,2,9 dirm=1 sub={SUB} calls={calls}")
+
+
 def canon_real(outcome, res, log):
     inv = sum(1 for e in log if e[0] == "call")
     sl = sum(1 for e in log if e[0] == "sleep")
@@ -195,9 +208,26 @@ def main(argv):
         ctx.count("outcome:" + outcome)
         monitor(ctx, case, attempts, rf, dnr, seq, delay, outcome, res, log, script)
         lines.append(model_line(attempts, rf, dnr, seq))
-        metas.append((case, canon_real(outcome, res, log)))
+        metas.append((case, canon_real(outcome, res, log), (attempts, rf, dnr, spelling, empty, seq, False) if empty == "empty" and (rf is None or dnr is None) else None))
     # several calls on ONE RetryingClient: each call has the whole budget of attempts and sleeps, whatever the calls before it did
     nh = 0
+    hlines, hmetas = [], []
+
+    def triage(attempts, rf, dnr, spelling, empty, seq_, model, reused=True):
+        """which theorem a disagreement on call `seq_` of a reused client unties: the same call on a FRESH client agrees with the model -> the calls
+        before it mattered (C17_calls_independent); it agrees once the empty filter is left out -> an empty filter is not "no filter"
+        (C17_empty_filter_is_no_filter); otherwise the single call itself (C17_retry_spec)"""
+        try:
+            o_, r_, l_, _ = run_real(retrying, attempts, rf, dnr, spelling, seq_, 0.25, empty=empty)
+            if reused and o_ != "ctor-ValueError" and canon_real(o_, r_, l_) == model:
+                return "C17_calls_independent"
+            if empty == "empty" and (rf is None or dnr is None):
+                o_, r_, l_, _ = run_real(retrying, attempts, rf, dnr, spelling, seq_, 0.25, empty="omit")
+                if o_ != "ctor-ValueError" and canon_real(o_, r_, l_) == model:
+                    return "C17_empty_filter_is_no_filter"
+        except Exception:
+            pass
+        return "C17_retry_spec"
     for attempts in (1, 2, 3, 4):
         firsts = list(itertools.product(["ok", 0, 9], repeat=attempts))
         for hi in range(len(firsts) * 3 if ctx.thorough else len(firsts)):
@@ -205,15 +235,24 @@ def main(argv):
             rf, dnr = ([None, None], [[0], None], [None, [9]], [[0, 9], [1]])[(hi + attempts) % 4]
             more = [tuple(rng.choice(["ok", 0, 0, 1, 9]) for _ in range(attempts)) for _ in range(rng.randrange(1, 5))]
             spelling = ("tuple", "list", "set")[hi % 3]
-            outcome, res, log, script = run_real(retrying, attempts, rf, dnr, spelling, first, 0.25, empty=("empty" if hi % 2 else "omit"), more=more)
+            empty = "empty" if hi % 2 else "omit"
+            outcome, res, log, script = run_real(retrying, attempts, rf, dnr, spelling, first, 0.25, empty=empty, more=more)
             calls_ = [(first, (outcome, res, log, script))] + list(zip(more, run_real.later))
+            if outcome != "ctor-ValueError":
+                # the whole history at once: the object as constructed (an empty filter given as an empty collection), every call in order
+                hlines.append(model_history_line(attempts, rf, dnr, spelling, empty, [first] + more))
+                hmetas.append(({"attempts": attempts, "retry_for": rf, "do_not_retry_for": dnr, "one_client_history": [list(x) for x in [first] + more], "spelling": spelling,
+                                "empty_filter_given_as": "an empty " + spelling if empty == "empty" else "not given"},
+                               [canon_real(o_, r_, l_) for _, (o_, r_, l_, _) in calls_], (attempts, rf, dnr, spelling, empty, [first] + more)))
+                ctx.count("histories on a reused client run by the model (runCalls)")
             for ci, (seq_, (o_, r_, l_, sc_)) in enumerate(calls_):
-                case = {"attempts": attempts, "retry_for": rf, "do_not_retry_for": dnr, "one_client_history": [list(x) for x in [first] + more][:ci + 1], "call_index": ci, "spelling": spelling}
+                case = {"attempts": attempts, "retry_for": rf, "do_not_retry_for": dnr, "one_client_history": [list(x) for x in [first] + more][:ci + 1], "call_index": ci, "spelling": spelling,
+                        "empty_filter_given_as": "an empty " + spelling if empty == "empty" else "not given"}
                 ctx.case(("one-client", attempts, hi, ci, seq_, tuple(map(tuple, more[:ci]))))
                 ctx.count("calls on a reused client")
                 monitor(ctx, case, attempts, rf, dnr, seq_, 0.25, o_, r_, l_, sc_)
                 lines.append(model_line(attempts, rf, dnr, seq_))
-                metas.append((case, canon_real(o_, r_, l_)))
+                metas.append((case, canon_real(o_, r_, l_), (attempts, rf, dnr, spelling, empty, seq_, True)))
             nh += 1
     # a method reachable but not listed in dir(): never retried
     for attempts in (1, 2, 3):
@@ -223,12 +262,25 @@ def main(argv):
             ctx.case(("ghost", attempts, seq), sample=None)
             ctx.count("not-in-dir")
             lines.append(model_line(attempts, None, None, seq, in_dir=False))
-            metas.append((case, canon_real(outcome, res, log)))
+            metas.append((case, canon_real(outcome, res, log), None))
     if ctx.lean.build_ok:
-        for (case, real), m in zip(metas, ctx.driver.batch(lines)):
+        for (case, real, reused), m in zip(metas, ctx.driver.batch(lines)):
             if m != real:
-                ctx.disagreement("model retry differs from implementation", dict(case, impl=real, model=m),
-                                 theorem="C17_retry_spec")
+                if reused is None or not reused[-1]:
+                    # (an empty collection given where the filter could have been left out: is that what makes the difference?)
+                    ctx.disagreement("model retry differs from implementation", dict(case, impl=real, model=m),
+                                     theorem="C17_retry_spec" if reused is None else triage(*reused[:-1], m, reused=False))
+                else:
+                    # a call on a reused client: by C17_calls_independent the model of this one call is all there is
+                    ctx.disagreement("a call on a reused client differs from the model of that call alone (each call has the whole budget, whatever came before)",
+                                     dict(case, impl=real, model=m), theorem=triage(*reused[:-1], m))
+        for (case, reals, (attempts, rf, dnr, spelling, empty, seqs)), m in zip(hmetas, ctx.driver.batch(hlines)):
+            models = ["ok " + x.replace(",", " ") for x in m[3:].split("|")] if m.startswith("ok res=") else [m]
+            if models != reals:
+                ci = next((i for i, (a_, b_) in enumerate(zip(models, reals)) if a_ != b_), 0)
+                th = triage(attempts, rf, dnr, spelling, empty, seqs[ci], models[ci]) if len(models) == len(reals) else "C17_calls_length"
+                ctx.disagreement("history of calls on one client differs from the model runCalls on the constructed object",
+                                 dict(case, call_index=ci, impl=reals, model=models), theorem=th)
     # constructor validation grid
     clines, cmetas = [], []
     kinds = {"none": None, "tuple": tuple, "list": list, "set": set, "other": "str"}
